@@ -45,7 +45,7 @@ _FLOORS = {"col.cases": 500, "col.rows.supplied": 30000, "col.rows.default": 900
           "idx.column.reads.supplied": 12000, "idx.column.reads.default": 8000, "idx.column.some_segment_lacks_column": 600,
           "idx.hit.column_fallback": 8000, "idx.hit.absent_checked": 6000, "idx.verifies.multisegment": 400,
           "idx.verifies.with_deletions": 250, "idx.buffered.verifies": 250, "idx.reopen.copy_to_ram": 80,
-          "idx.reopen.reopened": 80, "idx.loose": 100, "idx.compound": 150}
+          "idx.reopen.reopened": 80, "idx.loose": 100, "idx.compound": 150, "idx.frontend.serialmp": 50}
 FLOORS = {"quick": _FLOORS,
           "thorough": dict(_FLOORS, **{"col.refbytes.distinct>65535": 12, "col.varbytes.rows>32768": 25,
                                        "col.varbytes.offtype.i": 60})}
@@ -924,6 +924,13 @@ def index_case(ctx, rng):
     frontend = rng.choice(["writer", "writer", "writer", "buffered"]) if not wide else "writer"
     ncommits = rng.choice([1, 2, 3, 3, 4, 6, 8])
     schema_sig = tuple((fs.kind, fs.stored, fs.col) for fs in fspecs)
+    if frontend == "writer" and not wide:
+        # a quarter of the plain-writer cases go through the multi-process writer's machinery instead (SerialMpWriter: the same
+        # sub-writer / merge-of-sub-segments code, in process): every document is first written to a sub-segment and then copied
+        # into the final one. Drawn from a private stream so that the other cases stay what they were.
+        import random as _random
+        if _random.Random(repr((schema_sig, storage_kind, compound, ncommits))).random() < 0.25:
+            frontend = "serialmp"
     w = {"layer": "index", "schema": ["%s=%s(stored=%s,column=%s)" % (fs.name, fs.kind, fs.stored, fs.col) for fs in fspecs],
          "storage": storage_kind, "compound": compound, "frontend": frontend, "history": []}
     ctx.count("idx.cases")
@@ -978,7 +985,11 @@ def index_case(ctx, rng):
                 finally:
                     bw.close()
             else:
-                wr = ix.writer(compound=compound)
+                if frontend == "serialmp":
+                    from whoosh.multiproc import SerialMpWriter
+                    wr = SerialMpWriter(ix, procs=2 + (c % 2), compound=compound)
+                else:
+                    wr = ix.writer(compound=compound)
                 live = sorted(model.docs)
                 for _ in range(rng.randint(1, 5) if not (wide and c == 0) else rng.randint(270, 300)):
                     op = rng.choice(["add", "add", "add", "delete", "update"])
